@@ -17,6 +17,7 @@ from harness import explore
 from harness.core import CaseResult, Fail
 
 DXS = [1.0, 0.1, 1.0 / 3.0]
+EXTREME_DXS = [1e-3, 250.0]
 
 
 def neumann_matrix(shape, dx):
@@ -218,6 +219,11 @@ def run(r) -> None:
             dxs = DXS if (not quick or int(np.prod(sh)) <= 30) else [DXS[(sum(sh) + r.seed) % 3]]
             for dx in dxs:
                 cases.append(dict(shape=sh, dx=dx, dtype=dt))
+    # spacings far from 1 (a scale factor that cancels at O(1) spacings must show)
+    for sh in [(3, 4), (5, 2), (7, 6), (2, 3, 4), (4, 3, 5), (3, 3, 3)]:
+        for dt in ("float64", "float32"):
+            for dx in EXTREME_DXS:
+                cases.append(dict(shape=sh, dx=dx, dtype=dt))
     cases.sort(key=lambda c: -int(np.prod(c["shape"])))
     r.run_cases("basis", "basis", cases)
     depth = 3 if quick else 5
@@ -225,6 +231,6 @@ def run(r) -> None:
     r.run_cases("history", "history", hist)
     seqs = [dict(shape=sh, order=list(o), dtype=dt) for sh in ((4, 6), (3, 4, 5), (4, 4, 4)) for o in itertools.permutations(range(3)) for dt in ("float64", "float32")]
     r.run_cases("construction-sequences", "sequence", seqs)
-    r.bounds = {"shapes": f"{{{s2.start}..{s2.stop-1}}}^2, {{{s3.start}..{s3.stop-1}}}^3 + " + str([s for s in shapes if max(s) > 5][:9]), "spacings": DXS, "history_depth": depth}
+    r.bounds = {"shapes": f"{{{s2.start}..{s2.stop-1}}}^2, {{{s3.start}..{s3.stop-1}}}^3 + " + str([s for s in shapes if max(s) > 5][:9]), "spacings": DXS + EXTREME_DXS, "history_depth": depth}
     r.extra["rule"] = "basis: one state per right-hand side (all unit impulses + constant + dense) per shape/spacing/dtype; history: BFS states = bytes of all solver arrays"
     r.assumptions = ["LAPACK eigen-decomposition treated as opaque; residual tolerance 200 eps n_max^2 ||f||"]
